@@ -223,6 +223,32 @@ func (sc *c20Scenario) Run(s *simrt.Sim) {
 			sc.hung = true
 		}
 	}
+	// with an interface-typed result the function may return values of different dynamic types, and
+	// nil: Result() is always what the last invocation returned
+	{
+		cv := fpgo.CurryNew(func(c *fpgo.CurryDef[interface{}, interface{}], args ...interface{}) interface{} {
+			switch len(args) {
+			case 1:
+				return "incomplete"
+			case 2:
+				return 42
+			}
+			c.MarkDone()
+			return nil
+		})
+		var seen []string
+		op := h.Do("main", "CurryNew-result-types", nil, func() (interface{}, error) {
+			seen = append(seen, fmt.Sprintf("%T:%v", cv.Call("a").Result(), cv.Result()))
+			seen = append(seen, fmt.Sprintf("%T:%v", cv.Call("b").Result(), cv.Result()))
+			seen = append(seen, fmt.Sprintf("%T:%v", cv.Call("c").Result(), cv.Result()))
+			seen = append(seen, fmt.Sprintf("%T:%v", cv.Call("d").Result(), cv.Result()))
+			return nil, nil
+		})
+		want := "[string:incomplete int:42 <nil>:<nil> <nil>:<nil>]"
+		if op.Panic == "" && (fmt.Sprint(seen) != want || !cv.IsDone()) {
+			sc.smoke = append(sc.smoke, Violation{Clause: "result", Fingerprint: "interface-typed-results", Detail: fmt.Sprintf("CurryNew whose function returns a string, then an int, then nil (with MarkDone), then is called once more: Result() after each Call was %v, want %s; IsDone=%v", seen, want, cv.IsDone())})
+		}
+	}
 	// two independent instances used alternately must not see each other's arguments (both constructors)
 	{
 		mk := func(tag string, log *[]string) func(c *fpgo.CurryDef[interface{}, interface{}], args ...interface{}) interface{} {
